@@ -12,7 +12,7 @@ THEOREMS = ["C24_meaning", "C24_meaning_expr", "C24_lists", "C24_injective", "C2
 GEN = "/src/pymoca/backends/sympy/generator.py"
 
 # the strings the theorems were proved for (Model/C24_sympy.v)
-MODEL_FMT = ["({var:s}).diff(self.t)", "({left:s}) {op:s} ({right:s})", "{op:s} ({expr:s})",
+MODEL_FMT = ["sympy.sympify({var:s}).diff(self.t)", "({left:s}) {op:s} ({right:s})", "{op:s} ({expr:s})",
              "{tree.operator.name:s}({operand_src:s})", "{:s}", "{left:s} - ({right:s})", ",", "**"]
 FMT_NAMES = ["FMT_DER", "FMT_BIN", "FMT_UN", "FMT_CALL", "FMT_PRIM", "FMT_EQ", "SEP_ARGS", "POW_PY"]
 
@@ -35,71 +35,88 @@ class Skip(Exception):
     pass
 
 
-def ref_eval(node, env, mp):
-    """Exact-as-possible evaluation of a dumped flat expression with 50-digit mpmath numbers.
-    Returns (value, sum of magnitudes of all intermediate values)."""
+def has_der(node):
+    if node[0] == "op" and node[1] == "der":
+        return True
+    return any(has_der(c) for c in node[2:] if isinstance(c, list))
+
+
+def ref_eval(node, env, mp, d=False):
+    """Evaluation of a dumped flat expression with 50-digit mpmath numbers, in DUAL numbers when d is
+    set (under a der()): returns (value, time derivative or 0, sum of magnitudes of all intermediates).
+    der(e) of an arbitrary expression = derivative component by the sum/product/quotient/chain rules."""
     k = node[0]
+    zero = mp.mpf(0)
     if k == "var":
         if node[1] == "time" and not env["decl_time"]:
-            v = env["t"]
-        else:
-            v = env["var"][node[1]]
-        return v, abs(v)
+            return env["t"], mp.mpf(1), abs(env["t"])
+        v = env["var"][node[1]]
+        dv = env["der"][node[1]] if d and node[1] in env["der"] else zero
+        if d and node[1] not in env["der"] and node[1] not in env["const"]:
+            raise Skip("derivative of %s not supplied" % node[1])
+        return v, dv, abs(v) + abs(dv)
     if k == "sym":
         v = env["var"][node[1]]
-        return v, abs(v)
+        return v, (env["der"].get(node[1], zero) if d else zero), abs(v)
     if k == "num":
         if node[2] not in ("int", "float"):
             raise Skip("literal kind " + node[2])
         f = Fraction(node[1])
         v = mp.mpf(f.numerator) / mp.mpf(f.denominator)
-        return v, abs(v)
-    if k == "op" and node[1] == "der":
-        a = node[2]
-        if a[0] in ("var", "sym"):
-            if a[0] == "var" and a[1] == "time" and not env["decl_time"]:
-                return mp.mpf(1), mp.mpf(1)
-            v = env["der"][a[1]]
-            return v, abs(v)
-        raise Skip("der of an expression")
-    if k == "op" and len(node) == 4:
-        a, ma = ref_eval(node[2], env, mp)
-        b, mb = ref_eval(node[3], env, mp)
-        o = node[1]
-        try:
+        return v, zero, abs(v)
+    try:
+        if k == "op" and node[1] == "der" and len(node) == 3:
+            if has_der(node[2]):
+                raise Skip("nested der")
+            _, dv, m = ref_eval(node[2], env, mp, True)
+            return dv, zero, m + abs(dv)
+        if k == "op" and len(node) == 4:
+            a, da, ma = ref_eval(node[2], env, mp, d)
+            b, db, mb = ref_eval(node[3], env, mp, d)
+            o = node[1]
+            dv = zero
             if o == "+":
-                v = a + b
+                v, dv = a + b, da + db
             elif o == "-":
-                v = a - b
+                v, dv = a - b, da - db
             elif o == "*":
-                v = a * b
+                v, dv = a * b, da * b + a * db
             elif o == "/":
                 if b == 0:
                     raise Skip("division by zero")
-                v = a / b
+                v, dv = a / b, (da * b - a * db) / (b * b)
             elif o == "^":
                 if a == 0 and mp.re(b) <= 0 and b != 0:
                     raise Skip("zero to a negative power")
                 if abs(b) > 40 or abs(a) > 1e8:
                     raise Skip("huge power")
                 v = mp.power(a, b)
+                if d:
+                    if a == 0:
+                        raise Skip("derivative of a power at base 0")
+                    dv = v * (db * mp.log(a) + b * da / a)
             else:
                 raise Skip("operator " + o)
-        except ZeroDivisionError:
-            raise Skip("division by zero")
-        if not mp.isfinite(v) or abs(v) > 1e60:
-            raise Skip("overflow")
-        return v, ma + mb + abs(v)
-    if k == "op" and len(node) == 3 and node[1] in "+-":
-        a, ma = ref_eval(node[2], env, mp)
-        v = -a if node[1] == "-" else a
-        return v, ma + abs(v)
-    if k == "call" and len(node) == 3 and node[1] in ("sin", "cos", "tan"):
-        a, ma = ref_eval(node[2], env, mp)
-        v = getattr(mp, node[1])(a)
-        if not mp.isfinite(v) or abs(v) > 1e30:
-            raise Skip("pole")
-        return v, ma + abs(v)
+            if not mp.isfinite(v) or abs(v) > 1e60 or not mp.isfinite(dv) or abs(dv) > 1e60:
+                raise Skip("overflow")
+            return v, dv, ma + mb + abs(v) + abs(dv)
+        if k == "op" and len(node) == 3 and node[1] in "+-":
+            a, da, ma = ref_eval(node[2], env, mp, d)
+            if node[1] == "-":
+                a, da = -a, -da
+            return a, da, ma + abs(a)
+        if k == "call" and len(node) == 3 and node[1] in ("sin", "cos", "tan"):
+            a, da, ma = ref_eval(node[2], env, mp, d)
+            v = getattr(mp, node[1])(a)
+            dv = zero
+            if d:
+                dv = {"sin": lambda: mp.cos(a), "cos": lambda: -mp.sin(a),
+                      "tan": lambda: 1 / mp.cos(a) ** 2}[node[1]]() * da
+            if not mp.isfinite(v) or abs(v) > 1e30 or abs(dv) > 1e30:
+                raise Skip("pole")
+            return v, dv, ma + abs(v) + abs(dv)
+    except ZeroDivisionError:
+        raise Skip("division by zero")
     raise Skip("outside the subset: %s" % node[:2])
 
 
@@ -154,10 +171,25 @@ def judge(case, res):
         F.append(("equation-count", "%d emitted equations for %d flat equations" % (res["n_eqs"], len(res["eqs"])), {}))
     if F:
         return F, st
-    # distinct flat variables -> distinct symbols (positional identification)
+    # distinct flat variables -> distinct Python identifiers and distinct symbols (positional identification)
     by_obj = {"Symbol('t')": "<builtin time>"}
     name_obj = {}
     collided = False
+    by_id, name_id = {}, {}
+    for k in KEYS:
+        ids = [x for x in (res["lists"].get(k) or "").split(", ") if x]
+        if len(ids) != len(exp[k]):
+            continue
+        for n, ident in zip(exp[k], ids):
+            if name_id.setdefault(n, ident) != ident:
+                continue
+            if ident in by_id and by_id[ident] != n:
+                collided = True
+                F.append((collision_tag(by_id[ident], n, res["builtins"]),
+                          "distinct flat variables %s and %s are bound to the same Python identifier %s"
+                          % (by_id[ident], n, ident), {"pair": [by_id[ident], n]}))
+            else:
+                by_id[ident] = n
     for k in KEYS:
         for n, o in zip(exp[k], objs[k]):
             if n in name_obj:
@@ -183,11 +215,12 @@ def judge(case, res):
         env = {"var": {n: mp.mpf(Fraction(v).numerator) / Fraction(v).denominator for n, v in pt["var"].items()},
                "der": {n: mp.mpf(Fraction(v).numerator) / Fraction(v).denominator for n, v in pt["der"].items()},
                "t": mp.mpf(Fraction(pt["t"]).numerator) / Fraction(pt["t"]).denominator,
-               "decl_time": decl_time}
+               "decl_time": decl_time,
+               "const": {n for n, p in syms if "parameter" in p or "constant" in p}}
         for ei, (l, r) in enumerate(res["eqs"]):
             try:
-                a, ma = ref_eval(l, env, mp)
-                b, mb = ref_eval(r, env, mp)
+                a, _, ma = ref_eval(l, env, mp)
+                b, _, mb = ref_eval(r, env, mp)
             except Skip:
                 st["skipped"] += 1
                 continue
@@ -244,6 +277,8 @@ def mo(e):
         return "time"
     if k == "d":
         return "der(%s)" % e[1]
+    if k == "D":
+        return "der(%s)" % mo(e[1])
     if k == "c":
         return "%s(%s)" % (e[1], mo(e[2]))
     if k == "u":
@@ -252,12 +287,14 @@ def mo(e):
 
 
 def wrap(e):
-    return mo(e) if e[0] in "vntdc" else "(" + mo(e) + ")"
+    return mo(e) if e[0] in "vntdcD" else "(" + mo(e) + ")"
 
 
 def nops(e):
     if e[0] in "vntd":
         return 0
+    if e[0] == "D":
+        return 1 + nops(e[1])
     return 1 + sum(nops(c) for c in e[2:] if isinstance(c, tuple))
 
 
@@ -269,9 +306,36 @@ def rleaf(rng, env, tame=False):
         if not tame and rng.random() < 0.3:
             return ("n", rng.choice(WIDE))
         return ("n", rng.choice(LITS))
-    if x < 0.93 or not env["states"]:
+    if x < 0.91 or not env["states"]:
         return ("t",)
+    if rng.random() < 0.5:
+        return ("D", dcomp(rng, 2, env))               # der() of a compound of time-varying quantities
     return ("d", rng.choice(env["states"]))
+
+
+def dcomp(rng, depth, env):
+    """argument of a compound der(): states, literals and time under + - * / ^2 sin cos unary minus;
+    literal-only arguments (der(2*0.5): plain Python numbers in the generated code) included"""
+    if rng.random() < 0.12:
+        return rng.choice([("n", rng.choice(LITS)), ("b", rng.choice(["+", "*", "/", "^"]), ("n", rng.choice(LITS)), ("n", "2")),
+                           ("u", "-", ("n", rng.choice(LITS)))])
+    return dcomp0(rng, depth, env)
+
+
+def dcomp0(rng, depth, env):
+    if depth <= 0 or rng.random() < 0.15:
+        x = rng.random()
+        if x < 0.75:
+            return ("v", rng.choice(env["states"]))
+        return ("t",) if x < 0.85 else ("n", rng.choice(LITS))
+    x = rng.random()
+    if x < 0.7:
+        return ("b", rng.choice(["+", "-", "*", "*", "/"]), dcomp0(rng, depth - 1, env), dcomp0(rng, depth - 1, env))
+    if x < 0.8:
+        return ("b", "^", dcomp0(rng, depth - 1, env), ("n", rng.choice(["2", "3"])))
+    if x < 0.9:
+        return ("u", "-", dcomp0(rng, depth - 1, env))
+    return ("c", rng.choice(["sin", "cos"]), dcomp0(rng, depth - 1, env))
 
 
 def rexpr(rng, depth, env, tame=False):
@@ -401,6 +465,22 @@ def gen_systematic(rng):
                (("v", "e9"), ("b", "*", ("b", "-", Y, n("2500.0")), n("1.5e-07")))]
     decls = [("", "y", None), ("parameter", "copy", "2"), ("", "x", None)] + [("", "e%d" % j, None) for j in range(10)]
     cases.append(make_case(rng, decls, ["b"], ["a"], lit_eqs, [], "systematic"))
+    # der() of compounds: the trailer .diff(self.t) must apply to the whole argument
+    V = lambda s_: ("v", s_)
+    D = lambda e: ("D", e)
+    der_eqs = [(D(("b", "*", V("m"), V("v"))), n("1")), (D(("b", "+", V("q"), V("e"))), ("t",)),
+               (D(("b", "+", ("b", "*", V("a1"), V("b1")), V("c1"))), V("q")),
+               (D(("b", "/", V("x"), V("y"))), n("2")), (D(("b", "^", V("x"), n("2"))), V("m")),
+               (V("w"), ("b", "+", D(("b", "*", V("m"), V("v"))), ("b", "*", D(("b", "-", V("q"), V("e"))), n("2")))),
+               (D(("b", "*", ("c", "sin", V("x")), V("y"))), n("0")), (D(("u", "-", V("x"))), n("3")),
+               (D(("b", "*", ("t",), V("x"))), n("1")), (D(("c", "cos", ("b", "*", V("x"), V("y")))), V("w")),
+               (D(("b", "*", ("b", "+", V("m"), V("v")), ("b", "-", V("q"), V("e")))), ("d", "a.b")),
+               (D(("b", "-", V("y"), ("b", "/", n("1"), V("x")))), D(V("m"))),
+               (V("w"), ("b", "+", D(("b", "*", n("2"), n("0.5"))), D(n("3")))),          # der of literal-only expressions
+               (D(("b", "+", ("b", "^", n("2.0"), n("2")), n("1"))), ("b", "-", V("w"), D(("u", "-", n("1.5")))))]
+    sts = ["m", "v", "q", "e", "a1", "b1", "c1", "x", "y", "a.b"]
+    decls = [("", s_, None) for s_ in sts[:-1]] + [("", "w", None)]
+    cases.append(make_case(rng, decls, ["b"], ["a"], der_eqs, sts, "systematic"))
     per = 8
     for i in range(0, len(exprs), per):
         chunk = exprs[i:i + per]
